@@ -69,6 +69,7 @@ type DirectConnection struct {
 	closed                   sync2.AtomicBool
 	capabilityConnectToMySQL uint32
 	moreRowExists            bool
+	resultRowCount           int // rows read so far for the current result set, across FetchMoreRows chunks
 	handshakeTimeout         time.Duration
 }
 
@@ -1033,6 +1034,11 @@ func (dc *DirectConnection) readResultColumns(result *mysql.Result) (err error) 
 func (dc *DirectConnection) readResultRows(result *mysql.Result, isBinary bool, maxRows int) (err error) {
 	var data []byte
 	var bufLength int
+	// a call that continues a partially read result set (streaming) keeps counting,
+	// so that the row limit applies to the whole result set and not to each chunk
+	if !dc.moreRowExists {
+		dc.resultRowCount = 0
+	}
 	dc.moreRowExists = false
 	for {
 		data, err = dc.readPacket()
@@ -1059,7 +1065,8 @@ func (dc *DirectConnection) readResultRows(result *mysql.Result, isBinary bool, 
 		}
 
 		result.RowDatas = append(result.RowDatas, data)
-		if maxRows > 0 && len(result.RowDatas) >= maxRows {
+		dc.resultRowCount++
+		if maxRows > 0 && dc.resultRowCount > maxRows {
 			if err := dc.drainResults(); err != nil {
 				dc.pkgErr = fmt.Errorf("%v", sqlerr.ErrInvalidPacket)
 				return fmt.Errorf("%v %d, drain error: %v", sqlerr.ErrRowsLimitExceeded, maxRows, err)
